@@ -140,7 +140,7 @@ def guarded(fn, *args, timeout=5.0):
 # TLC
 # ---------------------------------------------------------------------------------------
 _SUMMARY = re.compile(r"^(\d+) states generated, (\d+) distinct states found, (\d+) states left")
-_COVLINE = re.compile(r"^<(\w+) line (\d+), col (\d+) to line (\d+), col (\d+) of module (\w+)>: (\d+):(\d+)")
+_COVLINE = re.compile(r"^<(\w+) line (\d+), col (\d+) to line (\d+), col (\d+) of module (\w+)(?: \([\d ]+\))?>: (\d+):(\d+)")
 
 
 def run_tlc(workdir, module, cfg, *, workers=NCPU, env=None, timeout=3600, line_cb=None,
@@ -476,6 +476,122 @@ class Ctx:
         self.note(f"{label}: TLC explored {r['distinct']} states / {r['generated']} transitions of {module} "
                   f"({cfg}); {n[0]} emitted vectors replayed on the code, {n[1]} mismatches")
         return r
+
+
+    # -------------------------------------------------------------------------------
+    # Direction A for state machines: the labelled state graph explored by TLC
+    # -------------------------------------------------------------------------------
+    def explore_graph(self, module, cfg, label, on_edge, consts=None, workers=1, timeout=3000, on_meta=None,
+                      need_actions=(), emit=True):
+        """Model-check a state machine spec; every explored transition is printed by the spec's
+        ACTION_CONSTRAINT as "EMIT {src, ev, dst, ...}" and handed to on_edge(dict)."""
+        wd = self.workdir(f"mc-{label}")
+        if consts:
+            with open(os.path.join(wd, cfg), "a") as f:
+                f.write("\n" + consts + "\n")
+        n = [0]
+
+        def cb(line):
+            s = tlc_string(line)
+            if s.startswith("EMIT "):
+                n[0] += 1
+                on_edge(json.loads(s[5:]))
+            elif s.startswith("META ") and on_meta:
+                on_meta(json.loads(s[5:]))
+
+        r = run_tlc(wd, module + ".tla", cfg, workers=workers, line_cb=cb, coverage=True, timeout=timeout, xmx="12g")
+        if r["errors"] or not r["finished"]:
+            raise MachineryError(f"TLC failed on {module}/{cfg}: {r['errors'][:16]} :: {r['cmd']}")
+        self.states += r["distinct"]
+        self.transitions += r["generated"]
+        for a, (d, g) in r["coverage"].items():
+            self.actions[f"{module}.{a}"] = self.actions.get(f"{module}.{a}", 0) + g
+        for a in need_actions:
+            if not r["coverage"].get(a, (0, 0))[1]:
+                raise MachineryError(f"vacuity: action {a} of {module} never taken")
+        self.note(f"{label}: TLC explored {r['distinct']} distinct states / {r['generated']} transitions of {module} "
+                  f"({cfg}), all invariants and action properties hold on the specification; {n[0]} transitions emitted")
+        shutil.rmtree(wd, ignore_errors=True)
+        return r
+
+    def validate_trace(self, module, events, label, shard=20000):
+        """Direction B for state machines: histories recorded from the real objects are checked
+        by a stateful trace specification (module) that steps the spec's actions along the
+        trace; returns {event id: failing clause(s)}; total (never stops at the first mismatch).
+        A new history starts with an event whose op is "init"; shards are cut at such events."""
+        wd = self.workdir(f"trace-{label}")
+        files, cur, curfile = [], 0, None
+        total = 0
+        idx = {}
+        for e in events:
+            if curfile is None or (e["op"] == "init" and cur >= shard):
+                if curfile:
+                    curfile.close()
+                fn = os.path.join(wd, f"hist{len(files)}.ndjson")
+                files.append([fn, 0])
+                curfile = open(fn, "w")
+                cur = 0
+            self.count(canon(e))
+            e["id"] = total
+            idx[total] = (len(files) - 1, cur)
+            curfile.write(canon(e) + "\n")
+            total += 1
+            cur += 1
+            files[-1][1] = cur
+        if curfile:
+            curfile.close()
+        bad, done, errors, results = {}, {}, [], []
+
+        def run(item):
+            fn, n = item
+
+            def cb(line):
+                s = tlc_string(line)
+                if s.startswith("BAD "):
+                    parts = s.split(" ", 2)
+                    bad[int(parts[1])] = parts[2] if len(parts) > 2 else "mismatch"
+                elif s.startswith("DONE "):
+                    done[fn] = int(s.split()[1])
+            r = run_tlc(wd, module + ".tla", module + ".cfg", workers=1, env={"TRACE_FILE": fn}, line_cb=cb,
+                        xmx="3g", timeout=3000)
+            if r["errors"] or not r["finished"]:
+                errors.append((fn, r["errors"][:12], r["cmd"]))
+            results.append(r)
+
+        with ThreadPoolExecutor(max_workers=NCPU) as ex:
+            list(ex.map(run, files))
+        if errors:
+            raise MachineryError(f"TLC failed validating {label}: {errors[0]}")
+        for fn, n in files:
+            if done.get(fn) != n:
+                raise MachineryError(f"trace {fn}: TLC consumed {done.get(fn)} of {n} events")
+        self.traces += len(files)
+        self.states += sum(r["distinct"] for r in results)
+        self.transitions += sum(r["generated"] for r in results)
+        out = {}
+        for i, clause in bad.items():
+            fi, li = idx[i]
+            out[i] = clause
+        self.note(f"{label}: {total} recorded events validated by TLC trace specification {module} in "
+                  f"{len(files)} file(s), {len(bad)} rejected")
+        self._trace_files = files
+        self._trace_idx = idx
+        return out
+
+    def trace_history(self, i):
+        """The recorded history (from its init event up to event i) containing event i."""
+        fi, li = self._trace_idx[i]
+        fn = self._trace_files[fi][0]
+        hist = []
+        with open(fn) as f:
+            for k, ln in enumerate(f):
+                e = json.loads(ln)
+                if e["op"] == "init":
+                    hist = []
+                hist.append(e)
+                if k == li:
+                    break
+        return hist
 
 
 # ---------------------------------------------------------------------------------------
